@@ -1091,12 +1091,22 @@ func (ip *Interp) callFn(fn *ssa.Function, args []AV, free []AV) AV {
 		}
 	}
 	inFragment := func() bool {
-		pk := fn.Pkg
-		if pk == nil && fn.Origin() != nil {
-			pk = fn.Origin().Pkg
+		top := fn
+		for top.Parent() != nil {
+			top = top.Parent()
+		}
+		pk := top.Pkg
+		if pk == nil && top.Origin() != nil {
+			pk = top.Origin().Pkg
 		}
 		if pk == nil {
 			return false
+		}
+		// generic helper packages of the standard library without a model of their own are pure Go over slices, maps and
+		// function values: evaluated like module code
+		switch pk.Pkg.Path() {
+		case "slices", "maps", "iter", "cmp":
+			return true
 		}
 		if strings.HasPrefix(pk.Pkg.Path(), logPath) {
 			return true
